@@ -40,7 +40,15 @@ func runSolver(s solverSpec, file string, timeoutS int) solveOut {
 	out, _ := cmd.CombinedOutput()
 	secs := time.Since(t0).Seconds()
 	text := string(out)
-	first := strings.TrimSpace(strings.SplitN(text, "\n", 2)[0])
+	first := ""
+	for _, ln := range strings.Split(text, "\n") {
+		ln = strings.TrimSpace(ln)
+		if ln == "" || strings.HasPrefix(ln, "WARNING") {
+			continue
+		}
+		first = ln
+		break
+	}
 	res := "error"
 	switch {
 	case first == "unsat":
@@ -57,6 +65,32 @@ func runSolver(s solverSpec, file string, timeoutS int) solveOut {
 
 // discharge runs the portfolio on one obligation. Expected: unsat (sat for covers).
 func discharge(o *Obligation, dir string, timeoutS int, cross bool) {
+	discharge1(o, dir, timeoutS, cross)
+	if o.ok() || o.Cover || len(o.PCParts) == 0 || o.Result == "sat" {
+		return
+	}
+	// not decided on the merged reach condition: try path by path
+	whole := o.PC
+	total := o.Time
+	allOK := true
+	for _, p := range o.PCParts {
+		o.PC = p
+		discharge1(o, dir, timeoutS, false)
+		total += o.Time
+		if !o.ok() {
+			allOK = false
+			break // o keeps the failing part's PC, result and model
+		}
+	}
+	o.Time = total
+	if allOK {
+		o.PC = whole
+		o.Result = "unsat"
+		o.Solver = o.Solver + " (by paths)"
+	}
+}
+
+func discharge1(o *Obligation, dir string, timeoutS int, cross bool) {
 	script := o.script(true)
 	file := filepath.Join(dir, sanitizeSym(o.Name)+".smt2")
 	if len(file) > 200 {
@@ -69,6 +103,13 @@ func discharge(o *Obligation, dir string, timeoutS int, cross bool) {
 		want = "sat"
 	}
 	decided := func(r string) bool { return r == "sat" || r == "unsat" }
+	if o.Cover {
+		// reachability guard: a quick look is enough (only a proof of
+		// unreachability counts against the check)
+		r := runSolver(solvers[0], file, 3)
+		o.Result, o.Solver, o.Time, o.Model = r.result, r.solver, r.secs, r.output
+		return
+	}
 	// stage 1: z3 5.1 with a short limit, on both assertion orders
 	quick := 4
 	if quick > timeoutS {
